@@ -587,9 +587,10 @@ class Client:
                 services.append(service)
                 self.on_service_discovered(service)
 
-                # Check if we've reached the end already
+                # Check if we've reached the end already (entries after this one, if
+                # any, are not looked at, so they must not drive the next request)
                 if end_group_handle == 0xFFFF:
-                    break
+                    return services
 
             # Stop if for some reason the list was empty
             if not response.handles_information:
